@@ -336,6 +336,22 @@ def value_pair_cases(rng):
     return out
 
 
+def scale_cases(rng, tier):
+    """beyond the small bounds: scores of 300 / 1 000 frames (frame numbers beyond 256 and 2^8 boundaries of any counter) with a
+    sprite that stays constant all the way, one that changes late, sounds and tempo that run across frame 256 / 257 / 258"""
+    out = []
+    for n in (300, 1000) if tier == "quick" else (258, 300, 1000, 5000):
+        a, b = rand_sprite(rng), rand_sprite(rng)
+        b2, _ = change_one(rng, b)
+        frames = []
+        for i in range(n):
+            main = dict(fps=(15 if i in (0, 255, 256, 257, n - 1) else 0), sound1_cast=(7 if 250 <= i < 262 else 0), sound2_cast=(9 if i >= 256 else 0), script=(3 if i == 257 else 0))
+            frames.append(dict(main=main, palette=None, score=[a, (b if i < n - 20 else b2), (None if i % 256 else a)]))
+        t = table_txt(frames)
+        out.append(Case(kind="scale-frames", spec=dict(nframes=n), lines=[f"score toscore {t}"], expect=[canon(rle_expected(frames))]))
+    return out
+
+
 def pattern_cases(nch, nfr, alphabet, rng):
     """every table of nch channels x nfr frames over a small cell alphabet: _ (empty), A, B (= A with one attribute changed), C (another cast)"""
     A = rand_sprite(rng)
@@ -437,6 +453,7 @@ def cases(rng, tier):
     n_tab, n_snd, n_rag = dict(quick=(2500, 400, 200), thorough=(50000, 4000, 2000), search=(20000, 2000, 0))[tier]
     out = one_attr_cases(rng)
     out += value_pair_cases(rng)
+    out += scale_cases(rng, tier)
     out += pattern_cases(1, 6, "_AB", rng)                         # 729 columns
     out += pattern_cases(2, 2, "_ABC", rng)                        # 256 tables
     if tier != "quick":
